@@ -188,6 +188,13 @@ def r2(idx, rep):
     stdlib = {"io.StringIO": lambda i, c, r, a, k: io.StringIO(*a), "csv.writer": _safe(csv.writer), "csv.reader": _safe(csv.reader),
               "hashlib.sha256": lambda i, c, r, a, k: hashlib.sha256(*a), "os.path.join": lambda i, c, r, a, k: "/".join(a),
               "os.path.basename": lambda i, c, r, a, k: a[0].rpartition("/")[2]}
+
+    def _nofile(i, c, r, a, k):
+        raise Raised("FileNotFoundError")
+
+    # tables that are not about the file's state run on a path that cannot be stat'ed (the cache then keys on the path alone)
+    for nm in ("os.stat", "os.path.getmtime", "os.path.getsize"):
+        stdlib[nm] = _nofile
     bad = None
     for hs in header_sets:
         fs = ModelFS()
@@ -249,6 +256,56 @@ def r2(idx, rep):
             elif p.result[1] is None or p.result[1][1] != ["a", "b"]:
                 bad = bad or f"cache entry without {list(drop)}: headers kept are {p.result[1]!r}, documented ['a', 'b']"
     rep.check(bad is None, "R2", f"{ff.file}::FileCacher._find_lines_and_headers partial cache entries", bad or "4 cache states", K.where(ff, ff.node))
+    # a cache entry describes one state of the file: after the file at that path was rewritten (other size / modification time) the
+    # entry of the earlier content must not be served (a later job on the same path would get the earlier job's line counts and headers)
+    class _Stat:
+        def __init__(self, size, mtime_ns):
+            self.st_size, self.st_mtime_ns, self.st_mtime = size, mtime_ns, mtime_ns / 1e9
+
+        def __deepcopy__(self, memo):
+            return self
+
+    bad = None
+    for change in ("unchanged", "rewritten"):
+        fs = ModelFS()
+        state = {"stat": _Stat(8, 1000)}
+        h = dict(stdlib)
+        h["open"] = fs.open
+        h["lm.dump"] = lambda i, c, r, a, k: '{"n": 1}'
+        h["LineMonitor"] = lambda i, c, r, a, k: Obj("LM2")
+        h["LM2.load"] = lambda i, c, r, a, k: None
+        for nm in ("os.stat", "os.path.getmtime", "os.path.getsize"):
+            def _st(i, c, r, a, k, nm=nm, state=state):
+                if a[0] != "/data/f.csv":
+                    raise Raised("FileNotFoundError")
+                st = state["stat"]
+                if nm == "os.stat":
+                    for f in ("st_size", "st_mtime_ns", "st_mtime"):
+                        i.store["STAT." + f] = getattr(st, f)
+                    return Obj("STAT")
+                return st.st_mtime if nm.endswith("getmtime") else st.st_size
+            h[nm] = _st
+        h["os.path.exists"] = lambda i, c, r, a, k: a[0] == "/data/f.csv" or a[0] in fs.files
+
+        def program(it, change=change, state=state):
+            it.call_function(fw, {"__pos__": ["/data/f.csv", Obj("lm"), ["a", "b"]]}, "self")
+            if change == "rewritten":
+                state["stat"] = _Stat(30, 2000)
+            return it.call_function(fr, {"__pos__": ["/data/f.csv"]}, "self")
+
+        it = Interp(idx, types={"self": "FileCacher", "self.cache": "Cache"}, inline_all={"FileCacher", "Cache"},
+                    handlers=dict(h, **{"self.cache._cachedir": lambda i, c, r, a, k: "CACHE"}), unknown_calls="residual")
+        ps = it.run_program(program, {"self.pathed_lines_and_headers": {}})
+        for p in ps:
+            hit = p.result[0] == "return" and isinstance(p.result[1], tuple) and p.result[1][0] is not None
+            if p.result[0] != "return":
+                bad = bad or f"file {change}: {p.result}"
+            elif change == "unchanged" and not (hit and p.result[1][1] == ["a", "b"]):
+                bad = bad or f"file unchanged since it was cached: the entry is not found ({p.result[1]!r})"
+            elif change == "rewritten" and hit:
+                bad = bad or ("the file at the cached path was rewritten (size 8 → 30, later modification time) and the cache still serves the earlier content's "
+                              f"line counts and headers {p.result[1][1]!r}: a run on the new content stops at the old line count and resolves #names against the old headers")
+    rep.check(bad is None, "R2", f"{fr.file}::cache entries are tied to the file's state", bad or "2 histories", K.where(cr, cr.node))
     # cache key: distinct paths (also with the same file name) get distinct keys; the same path the same key
     fn = idx.method("Cache", "_cache_name")
     keys = {}
